@@ -143,7 +143,18 @@ func r17_3(r *Report, p *Program) {
 		return
 	}
 	cl := engine.StaticFn(goI.Common())
-	ok, why := cl != nil && len(cl.Params) == 1, "the goroutine body does not take its revision as a parameter"
+	// the parameter of the goroutine body (closure or method) that receives the loop's own revision
+	own := -1
+	if cl != nil {
+		if l := engine.EnclosingLoop(engine.RangeLoops(f), goI); l != nil {
+			for i, a := range goI.Common().Args {
+				if engine.SameValue(a, l.Val) && i < len(cl.Params) {
+					own = i
+				}
+			}
+		}
+	}
+	ok, why := cl != nil && own >= 0, "the goroutine body does not take its revision as a parameter"
 	if ok {
 		// writes: only fields of its own parameter; no stores to captured variables
 		for _, b := range engine.BlocksInl(cl) {
@@ -154,7 +165,7 @@ func r17_3(r *Report, p *Program) {
 				}
 				switch a := st.Addr.(type) {
 				case *ssa.FieldAddr:
-					if !engine.PointsInto(a.X, cl.Params[0]) {
+					if !engine.PointsInto(a.X, cl.Params[own]) {
 						ok, why = false, "goroutine writes "+E(st.Addr)+", which is not a field of the revision it was handed: concurrent goroutines write shared state without synchronisation"
 					}
 				case *ssa.FreeVar:
@@ -170,7 +181,7 @@ func r17_3(r *Report, p *Program) {
 		}
 		for _, b := range engine.BlocksInl(cl) {
 			for _, in := range b.Instrs {
-				if mu, isMU := in.(*ssa.MapUpdate); isMU && !engine.PointsInto(mu.Map, cl.Params[0]) {
+				if mu, isMU := in.(*ssa.MapUpdate); isMU && !engine.PointsInto(mu.Map, cl.Params[own]) {
 					if _, local := engine.ResolveLocal(mu.Map).(*ssa.MakeMap); !local {
 						ok, why = false, "goroutine writes shared map "+E(mu.Map)
 					}
@@ -180,7 +191,7 @@ func r17_3(r *Report, p *Program) {
 		// the argument is the loop's own element
 		loops := engine.RangeLoops(f)
 		l := engine.EnclosingLoop(loops, goI)
-		if l == nil || !engine.SameValue(goI.Common().Args[0], l.Val) {
+		if l == nil || !engine.SameValue(goI.Common().Args[own], l.Val) {
 			ok, why = false, "the goroutine is not handed the loop's own revision"
 		}
 		hasDone := false
